@@ -259,7 +259,13 @@ def run(ctx, anchors=None):
         # sigversion guard
         sv_ok = False
         other = []
+        flat = []
         for (c, t) in S.ast_guards(opstep, inc):
+            if t:
+                flat += [(cj, True) for cj in S.conjuncts(c)]      # `A && B` guarding the increment is the two guards A, B
+            else:
+                flat.append((c, False))
+        for (c, t) in flat:
             names = S.compared_enumerators(c, lambda e: is_env_field(e, "sigversion")) if t else None
             if names is not None:
                 if names == set(spec["counted_sigversions"]):
@@ -331,9 +337,9 @@ def run(ctx, anchors=None):
             def sv(e, fal=fal):
                 return any(p[-1] == "sigversion" for p in astq.paths(e, fal)) or (e.get("k") == "ref" and e["n"].startswith("sigversion"))
             exempt = False
-            for (c, t) in S.ast_guards(f, n):
-                names = S.compared_enumerators(c, sv) if t else None
-                if names is not None and "SigVersion::TAPSCRIPT" not in names:
+            for (c, t) in S.guard_atoms(f, n):
+                names = S.compared_enumerators(c, sv)
+                if names is not None and ((t and "SigVersion::TAPSCRIPT" not in names) or (not t and names == {"SigVersion::TAPSCRIPT"})):
                     exempt = True
             fcfg = f.cfg()
             for (c, t) in fcfg.guards_of(n):
